@@ -647,6 +647,12 @@ def str_parse_i64(it, args, callee):
             return Err(Opaque('ParseIntError'))
         if d.src is not None and d.src != 'negzero' and d.src[0] == 'bv' and d.src[1].size() == 64 and d.src[2]:
             return Ok(d.src[1])
+        if d.src is not None and d.src != 'negzero' and d.src[0] == 'bv' and d.src[1].size() > 64 and d.src[2]:
+            v = d.src[1]
+            lo = z3.Extract(63, 0, v)
+            if it.truth(z3.SignExt(v.size() - 64, lo) == v):
+                return Ok(simp(lo))
+            return Err(Opaque('ParseIntError'))
         m = d.m
         inr = z3.And(m >= -(1 << 63), m < (1 << 63))
         if it.truth(inr):
@@ -787,12 +793,12 @@ def vec_into_iter(it, args, callee):
     return IterV('into', args[0].items, 0)
 
 
-@pattern(r'^<(std::vec::IntoIter|std::slice::Iter|std::ops::Range)<.*> as IntoIterator>::into_iter$')
+@pattern(r'^<(std::vec::IntoIter|std::slice::Iter|std::slice::IterMut|std::ops::Range|std::collections::hash_map::\w+|std::collections::hash_set::\w+)<.*> as IntoIterator>::into_iter$')
 def iter_into_iter(it, args, callee):
     return args[0]
 
 
-@pattern(r"^<(std::vec::IntoIter|std::slice::Iter)<.*> as Iterator>::next$")
+@pattern(r"^<(std::vec::IntoIter|std::slice::Iter|std::slice::IterMut|std::collections::hash_map::\w+|std::collections::hash_set::\w+)<.*> as Iterator>::next$")
 def iter_next(it, args, callee):
     r = args[0]
     v = rd(r)
@@ -1283,7 +1289,8 @@ def dec_from_str_concrete(bs):
         i += 1
     if not has:
         return 'err'
-    return Dec(-data if neg else data, scale, 'negzero' if (neg and data == 0) else None)
+    # Decimal::from_parts clears the sign of a zero: "-0" parses to +0
+    return Dec(-data if neg else data, scale, None)
 
 
 @model('<rust_decimal::Decimal as std::str::FromStr>::from_str', '<rust_decimal::Decimal as FromStr>::from_str',
@@ -1350,6 +1357,8 @@ def dec_from_str(it, args, callee):
         return Err(Opaque('rust_decimal::Error'))
     if is_sym(data):
         data = simp(data)
+    if neg and is_zero(it, data):
+        neg = False         # Decimal::from_parts clears the sign of a zero
     return Ok(Dec(-data if neg else data, scale, (neg, tuple(ints), tuple(fracs))))
 
 
